@@ -243,6 +243,7 @@ type worker struct {
 	found       map[string]found
 	samples     []map[string]interface{}
 	infra       string
+	capped      string // a part that could not be set up because of repository behaviour outside the statement
 	// scratch reused from case to case (a trace is dead once its case is finished)
 	shared    []byte    // the caller's one buffer of layouts 1-3, rewritten completely for every run
 	argv      [3][]byte // the argument slice headers handed to the VM
@@ -467,7 +468,10 @@ func (w *worker) runLayout(c caseIn, layout int, tr *trace, verify bool) bool {
 	w.ctx.Code, w.ctx.Arguments, w.ctx.StateData = m.prog, m.args, w.statev[:]
 	d, err := vm.VerifC07New(w.ctx, c.gas)
 	if err != nil {
-		w.infra = fmt.Sprintf("preamble failed: %v", err)
+		// gas is ample: the VM's own push refused an initial item; not a matter of layout
+		if w.capped == "" {
+			w.capped = fmt.Sprintf("case %x args %x layout %d: could not be set up: pushing the initial stacks failed: %v", c.prog, c.args, layout, err)
+		}
 		return false
 	}
 	var ref *rvm
@@ -666,7 +670,15 @@ func (w *worker) runLayout(c caseIn, layout int, tr *trace, verify bool) bool {
 		g, verr := vm.Verify(w.ctx, c.gas)
 		vc := classOf(verr)
 		if vc != final || (vc != eUnexpected && g != d.RunLimit()) {
-			w.infra = fmt.Sprintf("step driver disagrees with vm.Verify on program %x args %x layout %d: driver (%s, %d) Verify (%s, %d)", c.prog, c.args, layout, final, d.RunLimit(), vc, g)
+			what := fmt.Sprintf("step driver disagrees with vm.Verify on program %x args %x layout %d: driver (%s, %d) Verify (%s, %d)", c.prog, c.args, layout, final, d.RunLimit(), vc, g)
+			if layout != 0 {
+				// layout 0 ran first and vm.Verify agreed with the stepped run there; the stepped run of this
+				// layout equals that of layout 0: vm.Verify's own result depends on the memory layout
+				w.report("verify-result-differs-across-layouts", "vm.Verify agrees with the stepped run on independent buffers but not in this layout: "+what, c, layout, k, extra(k, vc))
+			} else if w.capped == "" {
+				// a difference between Verify and step() on independent buffers is not a matter of layout
+				w.capped = "vm.Verify cross-check: could not be set up: " + what
+			}
 			return false
 		}
 		if region, spareOnly := m2.callerDamage(c, layout); region != "" && !spareOnly {
@@ -873,6 +885,9 @@ func main() {
 		}
 		if w.infra != "" {
 			ev.Fatal("%s", w.infra)
+		}
+		if w.capped != "" {
+			run.Capped(w.capped)
 		}
 		run.Add("evaluations", w.runs)
 		run.Add("cases", w.cases)
